@@ -178,6 +178,75 @@ S_ENU = Stream(
     klass=lambda c, o: 'near' if abs(c['g'][0] - c['base'][0]) <= 0.5 and abs(c['g'][1] - c['base'][1]) <= 0.5 else 'far')
 
 
+# ------------------------------------------------------------------ Lambert-93
+
+LIMPORTS = ('From Coq Require Import Reals Lra.\nFrom Interval Require Import Tactic.\n'
+            'From TL Require Import Proofs.CoordsDeg Proofs.Lambert Proofs.LambertDeg.\nOpen Scope R_scope.')
+
+
+def gen_lamb(rng, n, tier):
+    out = []
+    for _ in range(n):
+        lon = rng.choice([rng.uniform(-5, 9.5), 3.0, 2.3488, -4.75, 9.5])
+        lat = rng.choice([rng.uniform(41.5, 51), 46.5, 41.5, 51.0])
+        out.append({'g': [lon, lat, rng.choice([0.0, rng.uniform(-100, 4800)])]})
+    return out
+
+
+def run_lamb(case):
+    from tracklib.core import GeoCoords
+    g = GeoCoords(*case['g'])
+    p = g.toProjCoords(2154)
+    b = p.toGeoCoords(2154)
+    return {'p': [p.getX(), p.getY(), p.getZ()], 'back': [b.lon, b.lat, b.hgt]}
+
+
+def coq_lamb(case, obs):
+    if 'exc' in obs:
+        return None
+    lon, lat, _ = case['g']; X, Y, _ = obs['p']; lo, la, _ = obs['back']
+    inv = '''  unfold from_l93, inv_phi. split.
+  - unfold inv_lon. lconsts. interval with (i_prec 90).
+  - remember (inv_latiso LXp LYp Ln LC %s %s) as L eqn:HL. symmetry in HL. unfold inv_latiso in HL. lconsts. lencl HL.
+    remember (2 * atan (exp L) - PI / 2) as p0 eqn:H0. symmetry in H0. lencl H0.
+    cbn [inv_iter]. do 10 stage_step. interval with (i_prec 90).'''
+    return '''Lemma forward : let '(x, y) := to_l93 %s %s in Rabs (x - %s) <= 1/1000000 /\\ Rabs (y - %s) <= 1/1000000.
+Proof. unfold to_l93, to_lambert, latiso, ratio, Rpower. lconsts. split; interval with (i_prec 90). Qed.
+Lemma inverse : let '(lo, la) := from_l93 %s %s in Rabs (lo - %s) <= 1/1000000000000 /\\ Rabs (la - %s) <= 1/1000000000000.
+Proof.
+%s
+Qed.
+(* pointwise theorem about the model: forward then inverse at this input is within 1e-9 degree *)
+Lemma roundtrip : let '(lo, la) := (let '(X, Y) := to_l93 %s %s in from_l93 X Y) in Rabs (lo - %s) <= 1/1000000000 /\\ Rabs (la - %s) <= 1/1000000000.
+Proof.
+  destruct (to_l93 %s %s) as [X Y] eqn:EP. unfold to_l93, to_lambert, latiso, ratio, Rpower in EP. lconsts.
+  injection EP as HX HY. lencl HX. lencl HY.
+  unfold from_l93, inv_phi. split.
+  - unfold inv_lon. lconsts. interval with (i_prec 90).
+  - remember (inv_latiso LXp LYp Ln LC X Y) as L eqn:HL. symmetry in HL. unfold inv_latiso in HL. lconsts. lencl HL.
+    remember (2 * atan (exp L) - PI / 2) as p0 eqn:H0. symmetry in H0. lencl H0.
+    cbn [inv_iter]. do 10 stage_step. interval with (i_prec 90).
+Qed.''' % (r(lon), r(lat), r(X), r(Y), r(X), r(Y), r(lo), r(la), inv % (r(X), r(Y)), r(lon), r(lat), r(lon), r(lat), r(lon), r(lat))
+
+
+def oracle_lamb(case, obs):
+    if 'exc' in obs:
+        return 'Lambert-93 conversion raised %s' % obs['exc']
+    lon, lat, h = case['g']; lo, la, hh = obs['back']
+    if not (abs(lo - lon) <= 1e-9 and abs(la - lat) <= 1e-9 and hh == h):
+        return 'geographic %r -> Lambert-93 %r -> geographic returns %r' % (case['g'], obs['p'], obs['back'])
+    return None
+
+
+S_LAMB = Stream(
+    name='lambert', mode='lemma', budget={'quick': 8, 'thorough': 150},
+    rule=('positions in metropolitan France (longitude -5..9.5, latitude 41.5..51, incl. the limits and the central meridian 3 E); per input Coq-Interval proves model forward = implementation '
+          'easting / northing to 1e-6 m, model inverse (ten staged iterations) at the implementation coordinates = implementation longitude / latitude to 1e-12 degree, and that the model round trip '
+          'at that input is within 1e-9 degree; oracle: round trip of the implementation'),
+    imports=LIMPORTS, case_type='', check_def='',
+    generate=gen_lamb, run_impl=run_lamb, coq_case=coq_lamb, oracle=oracle_lamb, klass=lambda c, o: 'lat%d' % int(c['g'][1] // 3))
+
+
 # ------------------------------------------------------------------ boundary inputs, Lambert-93, whole tracks (oracle only)
 
 def gen_edge(rng, n, tier):
@@ -268,4 +337,4 @@ S_EDGE = Stream(
     imports='From Coq Require Import List.', case_type='unit', check_def='Definition ok (c : unit) : bool := true.',
     generate=gen_edge, run_impl=run_edge, coq_case=lambda c, o: None, oracle=oracle_edge, klass=lambda c, o: c['kind'])
 
-STREAMS = [S_GEO, S_ENU, S_EDGE]
+STREAMS = [S_GEO, S_ENU, S_LAMB, S_EDGE]
